@@ -5,6 +5,12 @@
 //! * optional per-thread "guard mode": every allocation made by that thread is surrounded by two
 //!   64-byte canaries and its body is filled with a poison pattern; canaries are verified on free.
 //!   A damaged canary sets a per-thread flag that the check inspects (never panics in here);
+//! * optional per-thread "fence mode" (electric fence): every byte-aligned allocation made by that
+//!   thread is placed in its own mmap'd region so that it ends exactly at (mode 1) or starts
+//!   exactly at (mode 2) an inaccessible page. A read or write beyond that edge - even one that never
+//!   flows into visible data, like the over-read of a 16-byte chunked copy - kills the process with
+//!   SIGSEGV, which the launcher turns into a localised replay file. The slack on the other side is
+//!   filled with canaries and verified on free;
 //! * a process-wide cap on live bytes: exceeding it ends the run as "inconclusive" (exit 2).
 
 use std::alloc::{GlobalAlloc, Layout, System};
@@ -25,6 +31,156 @@ thread_local! {
     static POISON: Cell<u8> = const { Cell::new(0xC1) };
     static TABLE: Cell<[usize; 64]> = const { Cell::new([0; 64]) };
     static TABLE_N: Cell<usize> = const { Cell::new(0) };
+    static FENCE: Cell<u8> = const { Cell::new(0) };
+    static FTABLE: Cell<[[usize; 2]; 64]> = const { Cell::new([[0; 2]; 64]) };
+    static FTABLE_N: Cell<usize> = const { Cell::new(0) };
+    static FREGIONS: Cell<[[usize; 4]; FENCE_CACHE_PAGES]> = const { Cell::new([[0; 4]; FENCE_CACHE_PAGES]) };
+    static FENCED_ALLOCS: Cell<usize> = const { Cell::new(0) };
+}
+
+const PAGE: usize = 4096;
+const FENCE_MAX: usize = 8 << 20;
+const FENCE_CACHE_PAGES: usize = 8;
+
+extern "C" {
+    fn mmap(addr: *mut u8, len: usize, prot: i32, flags: i32, fd: i32, off: i64) -> *mut u8;
+    fn munmap(addr: *mut u8, len: usize) -> i32;
+    fn mprotect(addr: *mut u8, len: usize, prot: i32) -> i32;
+}
+
+/// Returns the start of `pages` accessible pages with an inaccessible page on either side.
+unsafe fn fence_region(pages: usize) -> *mut u8 {
+    if pages <= FENCE_CACHE_PAGES {
+        let got = FREGIONS
+            .try_with(|c| {
+                let mut a = c.get();
+                for slot in a[pages - 1].iter_mut() {
+                    if *slot != 0 {
+                        let p = *slot;
+                        *slot = 0;
+                        c.set(a);
+                        return p;
+                    }
+                }
+                0
+            })
+            .unwrap_or(0);
+        if got != 0 {
+            return got as *mut u8;
+        }
+    }
+    let total = (pages + 2) * PAGE;
+    // PROT_READ|PROT_WRITE = 3, MAP_PRIVATE|MAP_ANONYMOUS = 0x22
+    let base = mmap(std::ptr::null_mut(), total, 3, 0x22, -1, 0);
+    if base as isize == -1 || base.is_null() {
+        return std::ptr::null_mut();
+    }
+    if mprotect(base, PAGE, 0) != 0 || mprotect(base.add(PAGE + pages * PAGE), PAGE, 0) != 0 {
+        munmap(base, total);
+        return std::ptr::null_mut();
+    }
+    base.add(PAGE)
+}
+
+unsafe fn fence_release(data: *mut u8, pages: usize) {
+    if pages <= FENCE_CACHE_PAGES {
+        let kept = FREGIONS
+            .try_with(|c| {
+                let mut a = c.get();
+                for slot in a[pages - 1].iter_mut() {
+                    if *slot == 0 {
+                        *slot = data as usize;
+                        c.set(a);
+                        return true;
+                    }
+                }
+                false
+            })
+            .unwrap_or(false);
+        if kept {
+            return;
+        }
+    }
+    munmap(data.sub(PAGE), (pages + 2) * PAGE);
+}
+
+unsafe fn fence_alloc(size: usize, mode: u8) -> *mut u8 {
+    let pages = size.div_ceil(PAGE);
+    let data = fence_region(pages);
+    if data.is_null() {
+        return data;
+    }
+    let span = pages * PAGE;
+    let ptr = if mode == 1 { data.add(span - size) } else { data };
+    let inserted = FTABLE
+        .try_with(|t| {
+            let mut a = t.get();
+            for slot in a.iter_mut() {
+                if slot[0] == 0 {
+                    *slot = [ptr as usize, mode as usize];
+                    t.set(a);
+                    let _ = FTABLE_N.try_with(|n| n.set(n.get() + 1));
+                    return true;
+                }
+            }
+            false
+        })
+        .unwrap_or(false);
+    if !inserted {
+        fence_release(data, pages);
+        return std::ptr::null_mut();
+    }
+    std::ptr::write_bytes(data, CANARY, span);
+    let poison = POISON
+        .try_with(|c| {
+            let v = c.get();
+            c.set(v.wrapping_mul(31).wrapping_add(7) | 0x80);
+            v
+        })
+        .unwrap_or(0xC1);
+    std::ptr::write_bytes(ptr, poison, size);
+    let _ = FENCED_ALLOCS.try_with(|n| n.set(n.get() + 1));
+    ptr
+}
+
+/// If `ptr` is a fenced block: verifies the slack canaries, releases the region, returns true.
+unsafe fn fence_free(ptr: *mut u8, size: usize) -> bool {
+    if FTABLE_N.try_with(|n| n.get()).unwrap_or(0) == 0 {
+        return false;
+    }
+    let mode = FTABLE
+        .try_with(|t| {
+            let mut a = t.get();
+            for slot in a.iter_mut() {
+                if slot[0] == ptr as usize {
+                    let m = slot[1];
+                    *slot = [0, 0];
+                    t.set(a);
+                    let _ = FTABLE_N.try_with(|n| n.set(n.get() - 1));
+                    return m;
+                }
+            }
+            0
+        })
+        .unwrap_or(0);
+    if mode == 0 {
+        return false;
+    }
+    let pages = size.div_ceil(PAGE);
+    let span = pages * PAGE;
+    let data = if mode == 1 { ptr.add(size).sub(span) } else { ptr };
+    let (slack, slack_len) = if mode == 1 { (data, span - size) } else { (ptr.add(size), span - size) };
+    let mut bad = 0usize;
+    for i in 0..slack_len {
+        if *slack.add(i) != CANARY {
+            bad += 1;
+        }
+    }
+    if bad != 0 {
+        let _ = DAMAGED.try_with(|d| d.set(d.get() + 1));
+    }
+    fence_release(data, pages);
+    true
 }
 
 fn table_insert(p: usize) -> bool {
@@ -177,6 +333,13 @@ unsafe fn big_free(ptr: *mut u8, class: usize) {
 unsafe impl GlobalAlloc for VAlloc {
     unsafe fn alloc(&self, layout: Layout) -> *mut u8 {
         account_alloc(layout.size());
+        let fence = FENCE.try_with(|g| g.get()).unwrap_or(0);
+        if fence != 0 && layout.align() == 1 && layout.size() > 0 && layout.size() <= FENCE_MAX {
+            let p = fence_alloc(layout.size(), fence);
+            if !p.is_null() {
+                return p;
+            }
+        }
         if let Some(class) = cache_class(layout.size(), layout.align()) {
             return big_alloc(class);
         }
@@ -208,6 +371,9 @@ unsafe impl GlobalAlloc for VAlloc {
 
     unsafe fn dealloc(&self, ptr: *mut u8, layout: Layout) {
         account_free(layout.size());
+        if layout.align() == 1 && fence_free(ptr, layout.size()) {
+            return;
+        }
         if let Some(class) = cache_class(layout.size(), layout.align()) {
             return big_free(ptr, class);
         }
@@ -278,4 +444,15 @@ pub fn guarded_scope<R: Copy>(f: impl FnOnce() -> R) -> (R, usize) {
     let r = f();
     GUARD.with(|g| g.set(false));
     (r, DAMAGED.with(|d| d.get()))
+}
+
+/// Runs `f` with fence mode on for this thread (mode 1: blocks end at an inaccessible page, mode 2:
+/// blocks start at one). Returns (result, damaged slack regions seen on free, fenced allocations).
+pub fn fenced_scope<R: Copy>(mode: u8, f: impl FnOnce() -> R) -> (R, usize, usize) {
+    DAMAGED.with(|d| d.set(0));
+    FENCED_ALLOCS.with(|n| n.set(0));
+    FENCE.with(|g| g.set(mode));
+    let r = f();
+    FENCE.with(|g| g.set(0));
+    (r, DAMAGED.with(|d| d.get()), FENCED_ALLOCS.with(|n| n.get()))
 }
